@@ -8,7 +8,9 @@ FLOOR = {"quick": 1500, "thorough": 8000}
 NRANDOM = {"quick": 2000, "thorough": 10000}
 HEADER = "#![allow(warnings)]"
 
-TYPES = {"V": ("::dxrt::V", True), "PE": ("::dxrt::PE", False), "P": ("::dxrt::P", False), "f64": ("f64", False), "u8": ("u8", True)}
+TYPES = {"V": ("::dxrt::V", True), "PE": ("::dxrt::PE", False), "P": ("::dxrt::P", False), "f64": ("f64", False), "u8": ("u8", True),
+         # one key text (`$.0`, `$.1`) yields an Eq value on one of these and a PartialEq-only value on the other
+         "TupVP": ("(::dxrt::V, ::dxrt::PE)", False), "TupPV": ("(::dxrt::PE, ::dxrt::V)", False)}
 # (attribute text, kind, key-is-Eq)
 ATTRS = [
     ("", "none", None),
@@ -30,6 +32,10 @@ def subst(attr, ty):
     if ty in ("f64", "u8"):
         keq, kne = "($ as i64)", "($ as f64)"
         byeq, byord = "|a, b| (*a as i64) == (*b as i64)", "|a, b| (*a as i64).cmp(&(*b as i64))"
+    elif ty in ("TupVP", "TupPV"):
+        e, n = ("0", "1") if ty == "TupVP" else ("1", "0")
+        keq, kne = f"$.{e}", f"$.{n}"
+        byeq, byord = f"|a, b| a.{e} == b.{e}", f"|a, b| a.{e}.cmp(&b.{e})"
     else:
         keq, kne = "$.0", "::dxrt::PE($.0)"
         byeq, byord = "|a, b| a.0 == b.0", "|a, b| a.0.cmp(&b.0)"
@@ -101,6 +107,49 @@ GENERIC = [
     ("#[derive(::derive_ex::Ex)] #[derive_ex(Eq, PartialEq)] pub struct Ty<T>(T, f64);", False, []),
 ]
 
+def generic_family():
+    """Explicit bound(...) at every level of a generic type: Eq must still be refused unless the bounds make every compared
+    field type Eq.  Returns (code, expect_compiles, probes)."""
+    E = "::core::cmp::"
+    weak = [f"T: {E}PartialEq", f"T: {E}PartialOrd", f"T: ::core::clone::Clone + {E}PartialEq"]
+    strong = [f"T: {E}Eq", f"T: {E}Ord"]
+    ftys = ["T", "::core::option::Option<T>", "::std::vec::Vec<T>"]
+    out = []
+    k = 0
+    for pos in ("type.this", "type.common", "type.eq", "type.ord", "field.this", "field.common", "field.eq", "field.ord", "variant.this", "variant.eq"):
+        for b, is_strong in [(x, False) for x in weak] + [(x, True) for x in strong]:
+            for dots in (False, True):
+                k += 1
+                f = ftys[k % 3]
+                bb = b + (", .." if dots else "")
+                tl, tattr, vattr, fattr = "Eq, PartialEq", "", "", ""
+                if pos == "type.this":
+                    tl = f"Eq(bound({bb})), PartialEq"
+                elif pos == "type.common":
+                    tl = f"Eq, PartialEq, bound({bb})"
+                elif pos in ("type.eq", "type.ord"):
+                    tattr = f"#[{pos[5:]}(bound({bb}))] "
+                elif pos == "field.this":
+                    fattr = f"#[derive_ex(Eq(bound({bb})))] "
+                elif pos == "field.common":
+                    fattr = f"#[derive_ex(Eq, bound({bb}))] "
+                elif pos in ("field.eq", "field.ord"):
+                    fattr = f"#[{pos[6:]}(bound({bb}))] "
+                elif pos == "variant.this":
+                    vattr = f"#[derive_ex(Eq(bound({bb})))] "
+                else:
+                    vattr = f"#[eq(bound({bb}))] "
+                head = f"#[::derive_ex::derive_ex({tl})]\n" if k % 2 else f"#[derive(::derive_ex::Ex)]\n#[derive_ex({tl})]\n"
+                if pos.startswith("variant"):
+                    item = f"{tattr}pub enum Ty<T> {{ A, {vattr}B(u8, {fattr}{f}) }}"
+                elif k % 4 < 2:
+                    item = f"{tattr}pub struct Ty<T>(u8, {fattr}{f});"
+                else:
+                    item = f"{tattr}pub struct Ty<T> {{ f0: {fattr}{f}, f1: u8 }}".replace(f"f0: {fattr}", f"{fattr}f0: ")
+                ok = is_strong or dots
+                out.append((head + item, ok, [("::dxrt::V", True), ("::dxrt::PE", False)] if ok else []))
+    return out
+
 
 def gen_spec(rng):
     kind = rng.choice(["struct", "enum"])
@@ -109,7 +158,7 @@ def gen_spec(rng):
     for _ in range(nv):
         style = rng.choice(["named", "tuple"] if kind == "struct" else ["named", "tuple", "unit"])
         nf = 0 if style == "unit" else rng.randint(1, 4)
-        fs = [(rng.choice(["V", "V", "PE", "P", "f64", "u8"]), rng.choice(ATTRS)) for _ in range(nf)]
+        fs = [(rng.choice(["V", "V", "PE", "P", "f64", "u8", "TupVP", "TupPV"]), rng.choice(ATTRS)) for _ in range(nf)]
         vs.append((style, fs))
     return {"kind": kind, "variants": vs, "entry": rng.choice(["attr", "derive"])}
 
@@ -144,6 +193,22 @@ def run(rep, tier, rng):
                 if kind == "enum":
                     vs = [("unit", [])] + vs
                 specs.append({"kind": kind, "variants": vs, "entry": "attr" if k % 3 else "derive"})
+    # one key text on two fields: it yields an Eq value on one field and a PartialEq-only value on the other
+    # (`$.0` on (V, PE) and on (PE, V)); both orders, same variant and different variants, eq and ord helpers
+    for eq_ai, ne_ai in ((3, 4), (5, 6)):
+        for eq_ty, ne_ty in (("TupVP", "TupPV"), ("TupPV", "TupVP")):
+            for eq_first in (True, False):
+                for kind in ("struct", "enum", "enum2"):
+                    k += 1
+                    fe, fn = (eq_ty, ATTRS[eq_ai]), (ne_ty, ATTRS[ne_ai])
+                    f1, f2 = (fe, fn) if eq_first else (fn, fe)
+                    if kind == "enum2":
+                        vs = [("tuple", [f1]), ("named", [("V", ATTRS[0]), f2])]
+                    else:
+                        vs = [("named" if k % 2 else "tuple", [f1, ("u8", ATTRS[0]), f2])]
+                        if kind == "enum":
+                            vs = [("unit", [])] + vs
+                    specs.append({"kind": "struct" if kind == "struct" else "enum", "variants": vs, "entry": "attr" if k % 3 else "derive"})
     n0 = len(specs)
     while len(specs) < n0 + NRANDOM[tier]:
         specs.append(gen_spec(rng))
@@ -176,10 +241,14 @@ def run(rep, tier, rng):
             sigs.setdefault(f"C17|{r[0]}|{','.join(feat)[:100]}", []).append((c, f"{r[0]} ({r[1]}):\n{c.code[:400]}"))
     # generic cases: compile verdict + trait-solver probes at run time
     gcases = []
-    for j, (code, ok, probes) in enumerate(GENERIC):
+    fam = generic_family()
+    rep.count("generic_bound_family", len(fam))
+    for j, (code, ok, probes) in enumerate(GENERIC + fam):
         body = "\n".join(f'::dxrt::ev!("probe", "i" => {pi}, "eq" => ::dxrt::probe_impl!(Ty<{args}>: ::core::cmp::Eq));' for pi, (args, _) in enumerate(probes))
         gcases.append(C.Case(f"g{j}", code + "\npub fn run() {\n" + body + "\n}", {"ok": ok, "probes": probes}))
-    _, n3 = C.run_cases(gcases, "c17g", header=HEADER, batch_size=3)
+    _, n3 = C.run_cases([c for c in gcases if c.meta["ok"]], "c17g", header=HEADER, batch_size=40)
+    _, n4 = C.run_cases([c for c in gcases if not c.meta["ok"]], "c17h", header=HEADER, batch_size=60, runnable=False)
+    n3 = n3 + n4
     for n in n3:
         rep.inconcl(n)
     for c in gcases:
@@ -218,8 +287,10 @@ def run(rep, tier, rng):
                 "eq/ord(ignore), eq/ord(key yielding an Eq type), eq/ord(key yielding a non-Eq type), eq/ord(by = ..), eq+ord key "
                 "pairs}; #[derive_ex(Eq, PartialEq)] through both entry points, compiled metadata-only with the real proc-macro. "
                 "Oracle: rustc refuses with E0277 `...: Eq` iff some field that takes part in equality (or its key) is not Eq; "
-                "controls compile the user-written pieces without derive_ex. Generic cases add bound()/bound(T) variants and "
-                "probe_impl! bits for Eq/non-Eq instantiations. distinct_nontrivial = distinct sets of interesting fields.")
+                "controls compile the user-written pieces without derive_ex. Tuple field types (V, PE) / (PE, V) put one key text "
+                "(`$.0`) on an Eq and on a non-Eq component. Generic cases add bound()/bound(T) variants, a family with explicit "
+                "bound(B[, ..]) at every level (type per-trait / shared / #[eq] / #[ord], variant, field) for B weaker than Eq "
+                "(refused unless `..`) and B implying Eq, and probe_impl! bits for Eq/non-Eq instantiations. distinct_nontrivial = distinct sets of interesting fields.")
 
 
 def replay(rep, path):
